@@ -11,6 +11,9 @@ use log::{debug, warn};
 
 use climate::{nday_from_md, radiation_for_surface, SolarRadiation};
 
+#[cfg(cteenergymodel_verif)]
+use crate::verif_trace::TracedLock;
+
 use crate::{
     climatedata::{RadData, CLIMATEMETADATA, JULYRADDATA},
     energy::raytracing::{Bounded, Intersectable, Occluder, Ray, AABB, BVH},
